@@ -8,6 +8,17 @@ order (CPython iterates the set in an unspecified order; nothing compared depend
 No Mathlib. -/
 namespace Solvor.Cp
 
+/-! ### `Cp.Choose`: solver selection -/
+
+/-- a linear *equality* that, after merging coefficients (`_linear_diff`), still has three or more
+variables: a sum constraint written with operators, which DFS could only check at the leaves -/
+def Con.linEq3 : Con → Bool
+  | .rel l r false => decide (3 ≤ (linDiff l r).1.length)
+  | _ => false
+
+/-- `Model._choose_solver` (solver='auto'): `true` = SAT, `false` = DFS. -/
+def chooseSat (M : Model) : Bool := M.cons.any fun c => c.satRequired || c.linEq3
+
 /-- one domain (list of remaining values) per variable -/
 abbrev Doms := List (List Int)
 
